@@ -116,7 +116,7 @@ PROPS = {
         "title": "DVB-S2 parity-check matrices conform to ETSI EN 302 307-1",
         "verus": [
             {"unit": "dvbs2_dims", "template": "dvbs2/unit_dims.rs.in", "rlimit": 60, "canary": True},
-            {"unit": "dvbs2_h", "template": "dvbs2/unit_h.rs.in", "rlimit": 100, "canary": True},
+            {"unit": "dvbs2_h", "template": "dvbs2/unit_h.rs.in", "rlimit": 100, "canary": True, "defines": ["SPARSE_VERIFIED_ELSEWHERE"]},
         ] + [
             # one unit per code: the whole real `addresses()` body is verified, the
             # postcondition is asked for this code's arm only (shape, range, no repeats)
@@ -131,6 +131,7 @@ PROPS = {
         "assumptions": [
             "the standard's tables (n, k, q, degree profile) as transcribed in specs/dvbs2/std.rs.in",
             "SparseMatrix::new and SparseMatrix::insert_col trusted (external_body) with the contracts of specs/sparse",
+            "SparseMatrix::insert and the other sparse operations enter these units with their contracts only; their bodies are verified against the same contracts by the C17 unit (modular: a caller is checked against the callee's contract, not its body)",
             "Borrow<usize> for usize is the identity (axiom_bval_usize)",
             "Code::addresses() returns the same table on every call (uninterpreted addr_table); its shape/range/no-repeat facts are proved per code",
             "usize is 64-bit",
@@ -140,8 +141,8 @@ PROPS = {
         "level": "proof",
         "title": "CCSDS AR4JA parity-check matrices conform to CCSDS 131.0-B",
         "verus": [
-            {"unit": "ccsds", "template": "ccsds/unit.rs.in", "rlimit": 800, "canary": True, "timeout": 2400, "threads": 8},
-            {"unit": "ccsds_c2", "template": "ccsds/unit_c2.rs.in", "rlimit": 200, "canary": True, "timeout": 1200},
+            {"unit": "ccsds", "template": "ccsds/unit.rs.in", "rlimit": 800, "canary": True, "timeout": 2400, "threads": 8, "defines": ["SPARSE_VERIFIED_ELSEWHERE"]},
+            {"unit": "ccsds_c2", "template": "ccsds/unit_c2.rs.in", "rlimit": 200, "canary": True, "timeout": 1200, "defines": ["SPARSE_VERIFIED_ELSEWHERE"]},
         ],
         "kani": {"quick": [], "thorough": []},
         "witness": "c07",
